@@ -13,23 +13,112 @@ use nv::{Case, CaseWriter, Obs, Outcome, Rng, adversary::FaultySink, guarded};
 
 use crate::common::{V, bad, diff_column, first_diff, first_window_len, is_gz, make_reader, show};
 
+/// explicitly configured (format, compression) pairs
 pub const FMTS: [&str; 5] = ["sam", "samgz", "bam", "bamraw", "cram"];
+/// builder defaults: format set but compression not set (`samdef`, `bamdef`, `cramdef`), nothing set (`def`)
+pub const DEFAULTS: [&str; 4] = ["samdef", "bamdef", "cramdef", "def"];
+pub const ALL: [&str; 9] = ["sam", "samgz", "bam", "bamraw", "cram", "samdef", "bamdef", "cramdef", "def"];
 
+/// what the stream must be: for the default codes, the defaults the builder documents ("If the
+/// format is not set, a default format is used [SAM]. If the compression method is not set, a
+/// default one is determined by the format": SAM and CRAM => none, BAM => BGZF)
 pub fn fmt_of(code: &str) -> (Format, Option<CompressionMethod>) {
     match code {
-        "sam" => (Format::Sam, None),
+        "sam" | "samdef" | "def" => (Format::Sam, None),
         "samgz" => (Format::Sam, Some(CompressionMethod::Bgzf)),
-        "bam" => (Format::Bam, Some(CompressionMethod::Bgzf)),
+        "bam" | "bamdef" => (Format::Bam, Some(CompressionMethod::Bgzf)),
         "bamraw" => (Format::Bam, None),
         _ => (Format::Cram, None),
     }
 }
-fn family(code: &str) -> &'static str {
+/// what is set on the writer builder
+pub fn builder_cfg(code: &str) -> (Option<Format>, Option<Option<CompressionMethod>>) {
     match code {
-        "sam" | "samgz" => "sam",
-        "bam" | "bamraw" => "bam",
+        "def" => (None, None),
+        "samdef" => (Some(Format::Sam), None),
+        "bamdef" => (Some(Format::Bam), None),
+        "cramdef" => (Some(Format::Cram), None),
+        _ => {
+            let (f, k) = fmt_of(code);
+            (Some(f), Some(k))
+        }
+    }
+}
+fn writer_builder(code: &str, repo: fasta::Repository) -> alignment::io::writer::Builder {
+    let (f, k) = builder_cfg(code);
+    let mut b = alignment::io::writer::Builder::default().set_reference_sequence_repository(repo);
+    if let Some(f) = f {
+        b = b.set_format(f);
+    }
+    if let Some(k) = k {
+        b = b.set_compression_method(k);
+    }
+    b
+}
+fn family(code: &str) -> &'static str {
+    match fmt_of(code).0 {
+        Format::Sam => "sam",
+        Format::Bam => "bam",
+        Format::Cram => "cram",
+    }
+}
+fn is_cram(code: &str) -> bool {
+    family(code) == "cram"
+}
+/// the code of the (format, compression) the stream must have
+fn canon_code(code: &str) -> &'static str {
+    match fmt_of(code) {
+        (Format::Sam, None) => "sam",
+        (Format::Sam, Some(_)) => "samgz",
+        (Format::Bam, Some(_)) => "bam",
+        (Format::Bam, None) => "bamraw",
         _ => "cram",
     }
+}
+
+/// the reader a user would pick for this format and compression, from the format's own crate
+/// (a default-built BAM must be a BGZF BAM that `bam::io::Reader::new` reads, etc.)
+fn read_specific(code: &str, bytes: &[u8], repo: fasta::Repository) -> io::Result<Vec<Vec<u8>>> {
+    let mut lines = Vec::new();
+    match fmt_of(code) {
+        (Format::Sam, None) => {
+            let mut r = sam::io::Reader::new(bytes);
+            let h = r.read_header()?;
+            for rec in r.record_bufs(&h) {
+                lines.push(canon_line(&h, &rec?)?);
+            }
+        }
+        (Format::Sam, Some(_)) => {
+            let mut r = sam::io::Reader::new(noodles_bgzf::io::Reader::new(bytes));
+            let h = r.read_header()?;
+            for rec in r.record_bufs(&h) {
+                lines.push(canon_line(&h, &rec?)?);
+            }
+        }
+        (Format::Bam, Some(_)) => {
+            let mut r = bam::io::Reader::new(bytes);
+            let h = r.read_header()?;
+            for rec in r.record_bufs(&h) {
+                lines.push(canon_line(&h, &rec?)?);
+            }
+        }
+        (Format::Bam, None) => {
+            let mut r = bam::io::Reader::from(bytes);
+            let h = r.read_header()?;
+            for rec in r.record_bufs(&h) {
+                lines.push(canon_line(&h, &rec?)?);
+            }
+        }
+        _ => {
+            let mut r = noodles_cram::io::reader::Builder::default().set_reference_sequence_repository(repo).build_from_reader(bytes);
+            let h = r.read_header()?;
+            for rec in r.records(&h) {
+                let rec = rec?;
+                lines.push(canon_line(&h, &rec)?);
+            }
+        }
+    }
+    Ok(lines)
 }
 
 // ---------------------------------------------------------------------------------------------
@@ -255,14 +344,9 @@ pub fn write_generic(
     recs: &[&dyn sam::alignment::Record],
     repo: fasta::Repository,
 ) -> io::Result<Vec<u8>> {
-    let (f, k) = fmt_of(code);
     let sink = FaultySink::new(vec![]);
     {
-        let mut w = alignment::io::writer::Builder::default()
-            .set_format(f)
-            .set_compression_method(k)
-            .set_reference_sequence_repository(repo)
-            .build_from_writer(sink.clone())?;
+        let mut w = writer_builder(code, repo).build_from_writer(sink.clone())?;
         w.write_header(header)?;
         for r in recs {
             w.write_record(header, &AsRec(*r))?;
@@ -455,7 +539,7 @@ fn check_roundtrip(p: &Prepared, code: &str, rdr: &str) -> V {
         Ok(b) => b,
         Err(e) => return bad(format!("write-{code}-error"), format!("{e}")),
     };
-    check_stream(p, code, &bytes, rdr, &p.canon, code == "cram")
+    check_stream(p, code, &bytes, rdr, &p.canon, is_cram(code))
 }
 
 /// CRAM does not store the mapping quality of an unmapped read: compare it modulo that.
@@ -487,8 +571,10 @@ fn check_stream(p: &Prepared, code: &str, bytes: &[u8], rdr: &str, expect0: &[Ve
     let expect: &[Vec<u8>] = &expect_n;
     let (_, k) = fmt_of(code);
     if is_gz(bytes) != k.is_some() {
-        return bad(format!("write-{code}-compression-not-as-requested"), format!("stream starts {}", nv::hex(&bytes[..bytes.len().min(4)])));
+        let what = if DEFAULTS.contains(&code) { "default-compression-not-as-documented" } else { "compression-not-as-requested" };
+        return bad(format!("write-{code}-{what}"), format!("stream starts {}", nv::hex(&bytes[..bytes.len().min(4)])));
     }
+    let ccode = canon_code(code);
     let repo = p.spec.repository();
     let wlen = first_window_len(rdr, bytes.len());
     let short_window = wlen < bytes.len().min(8192);
@@ -519,10 +605,10 @@ fn check_stream(p: &Prepared, code: &str, bytes: &[u8], rdr: &str, expect0: &[Ve
             if full_ok(p) {
                 return bad("detect-short-first-read", format!("{code} first read {wlen} of {} bytes: {stage} {kind}", bytes.len()));
             }
-            if code == "samgz" && p.spec.text().len() < 4 {
+            if ccode == "samgz" && p.spec.text().len() < 4 {
                 return bad("detect-short-input-error", format!("samgz text of {} bytes: {stage} {kind}", p.spec.text().len()));
             }
-            if code == "sam" && sam_text_starts_with_cram(p) {
+            if ccode == "sam" && sam_text_starts_with_cram(p) {
                 return bad("detect-sam-as-cram", format!("header-less SAM starting `{}`: {stage} {kind}", &p.spec.lines[0][..p.spec.lines[0].len().min(12)]));
             }
             return bad(format!("read-{code}-error"), format!("{stage} {kind} {e}"));
@@ -535,10 +621,10 @@ fn check_stream(p: &Prepared, code: &str, bytes: &[u8], rdr: &str, expect0: &[Ve
         if full_ok(p) {
             return bad("detect-short-first-read", format!("{code} first read {wlen} of {} bytes: detected {}", bytes.len(), rb.variant));
         }
-        if code == "samgz" && p.spec.text().len() < 4 {
+        if ccode == "samgz" && p.spec.text().len() < 4 {
             return bad("detect-short-input-error", format!("samgz text of {} bytes: detected {}", p.spec.text().len(), rb.variant));
         }
-        if code == "sam" && rb.variant == "cram" && sam_text_starts_with_cram(p) {
+        if ccode == "sam" && rb.variant == "cram" && sam_text_starts_with_cram(p) {
             return bad("detect-sam-as-cram", "header-less SAM whose first read name starts with CRAM");
         }
         return bad(format!("detect-{code}-as-{}", rb.variant), format!("first bytes {}", nv::hex(&bytes[..bytes.len().min(8)])));
@@ -552,6 +638,19 @@ fn check_stream(p: &Prepared, code: &str, bytes: &[u8], rdr: &str, expect0: &[Ve
         }
         let col = expect.iter().zip(&rb.lines).find(|(a, b)| a != b).map(|(a, b)| diff_column(a, b)).unwrap_or(99);
         return bad(format!("roundtrip-{code}-loses-{}", col_name(col)), d);
+    }
+    // the stream is also a file of that format for the format's own reader (conventional framing)
+    {
+        let (b2, code2, repo2) = (bytes.to_vec(), code.to_string(), p.spec.repository());
+        match g(&format!("specific-read-{code}"), std::panic::AssertUnwindSafe(move || read_specific(&code2, &b2, repo2)))? {
+            Ok(lines) => {
+                let lines: Vec<Vec<u8>> = if via_cram { lines.iter().map(|l| norm_unmapped_mapq(l)).collect() } else { lines };
+                if let Some(d) = first_diff(expect, &lines) {
+                    return bad(format!("write-{code}-differs-for-format-reader"), d);
+                }
+            }
+            Err(e) => return bad(format!("write-{code}-unreadable-by-format-reader"), format!("{} {e}", nv::errkind(&e))),
+        }
     }
     // header: every line written is read back (CRAM may add M5/UR to @SQ)
     let hw = header_norm(&canon_header(&p.header).unwrap_or_default());
@@ -591,7 +690,7 @@ fn check_convert(p: &Prepared, src: &str, dst: &str) -> V {
         Err(e) => return bad(format!("write-{src}-error"), format!("{e}")),
     };
     // the source itself must read back (otherwise the conversion says nothing)
-    let via_cram = src == "cram" || dst == "cram";
+    let via_cram = is_cram(src) || is_cram(dst);
     check_stream(p, src, &bytes, "c", &p.canon, via_cram)?;
     let out = g(&format!("convert-{src}-to-{dst}"), {
         let repo = repo.clone();
@@ -602,13 +701,9 @@ fn check_convert(p: &Prepared, src: &str, dst: &str) -> V {
                 .build_from_reader(io::Cursor::new(bytes))
                 .map_err(|e| ("build".to_string(), e))?;
             let header = r.read_header().map_err(|e| ("read_header".to_string(), e))?;
-            let (f, k) = fmt_of(dst);
             let sink = FaultySink::new(vec![]);
             {
-                let mut w = alignment::io::writer::Builder::default()
-                    .set_format(f)
-                    .set_compression_method(k)
-                    .set_reference_sequence_repository(repo)
+                let mut w = writer_builder(dst, repo)
                     .build_from_writer(sink.clone())
                     .map_err(|e| ("build_writer".to_string(), e))?;
                 w.write_header(&header).map_err(|e| ("write_header".to_string(), e))?;
@@ -659,7 +754,7 @@ fn check_async(p: &Prepared, code: &str) -> V {
         Ok(b) => b,
         Err(e) => return bad(format!("write-{code}-error"), format!("{e}")),
     };
-    let via_cram = code == "cram";
+    let via_cram = is_cram(code);
     // the sync reader's verdict on the same stream comes first (known classes are tagged there)
     check_stream(p, code, &bytes, "c", &p.canon, via_cram)?;
     let expect: Vec<Vec<u8>> = if via_cram { p.canon.iter().map(|l| norm_unmapped_mapq(l)).collect() } else { p.canon.clone() };
@@ -693,18 +788,20 @@ fn check_async(p: &Prepared, code: &str) -> V {
         return bad(format!("async-read-{code}-differs-from-sync"), d);
     }
     // async writer
-    let (f, k) = fmt_of(code);
+    let (bf, bk) = builder_cfg(code);
     let out = g(&format!("async-write-{code}"), {
         let repo = repo.clone();
         std::panic::AssertUnwindSafe(|| {
             crate::common::block_on(async {
                 let sink = crate::common::AsyncSink::default();
-                let mut w = alignment::r#async::io::writer::Builder::default()
-                    .set_format(f)
-                    .set_compression_method(k)
-                    .set_reference_sequence_repository(repo)
-                    .build_from_writer(sink.clone())
-                    .await?;
+                let mut b = alignment::r#async::io::writer::Builder::default().set_reference_sequence_repository(repo);
+                if let Some(f) = bf {
+                    b = b.set_format(f);
+                }
+                if let Some(k) = bk {
+                    b = b.set_compression_method(k);
+                }
+                let mut w = b.build_from_writer(sink.clone()).await?;
                 w.write_header(&p.header).await?;
                 for r in &recs {
                     w.write_record(&p.header, *r).await?;
@@ -734,7 +831,7 @@ pub fn generate(rng: &mut Rng, tier: &str, w: &mut CaseWriter) {
     let thorough = tier == "thorough";
     // every format x header mode x record count class, full first read
     let counts: &[usize] = if thorough { &[0, 1, 2, 3, 5, 8, 13, 20] } else { &[0, 1, 3, 20] };
-    for code in FMTS {
+    for code in ALL {
         for hdr in 0..4u64 {
             for &n in counts {
                 let reps = if thorough { 6 } else { 1 };
@@ -772,7 +869,7 @@ pub fn generate(rng: &mut Rng, tier: &str, w: &mut CaseWriter) {
         }
     }
     // async builders
-    for code in FMTS {
+    for code in ALL {
         for i in 0..(if thorough { 12 } else { 3 }) {
             let n = if i == 0 { 0 } else { rng.range(1, 12) };
             w.push("aas", vec![code.into(), rng.next().to_string(), n.to_string(), (i % 4).to_string()]);
@@ -781,7 +878,7 @@ pub fn generate(rng: &mut Rng, tier: &str, w: &mut CaseWriter) {
     // conversions: every source -> every target
     let reps = if thorough { 12 } else { 2 };
     for src in FMTS {
-        for dst in FMTS {
+        for dst in ALL {
             for i in 0..reps {
                 let n = if i == 0 { 0 } else { rng.range(1, 20) };
                 let hdr = if i == 1 { 0 } else { rng.range(1, 3) };
